@@ -72,7 +72,7 @@ def build_all():
     return d, problems
 
 
-def run_cfg(d, name, cfg, data, timeout=120, chunk=None):
+def run_cfg(d, name, cfg, data, timeout=120, chunk=None, empty_after=None):
     """cfg = ('interp', level) | ('compiled', level) -> (status, stdout, stderr)"""
     env = dict(os.environ)
     env['RUST_BACKTRACE'] = '0'
@@ -82,7 +82,7 @@ def run_cfg(d, name, cfg, data, timeout=120, chunk=None):
     else:
         args = [os.path.join(d, '%s_%d' % (name, cfg[1]))]
     if chunk:
-        rc, raw, err = run_chunked(args, data, chunk, env=env, timeout=timeout)
+        rc, raw, err = run_chunked(args, data, chunk, env=env, timeout=timeout, empty_after=empty_after)
     else:
         try:
             p = subprocess.run(preexec_fn=child_setup, args=args, input=data, stdout=subprocess.PIPE, stderr=subprocess.PIPE, env=env, timeout=timeout)
@@ -107,7 +107,14 @@ def texts_task(d, texts, names, chunks=(None,), configs=None):
         for name in names:
             exp = expected_output(name, text).encode('utf-8')
             for cfg, chunk in [(c, k) for c in (configs or CONFIGS) for k in chunks]:
-                rc, out, err = run_cfg(d, name, cfg, data, chunk=chunk)
+                empty_after = None
+                if chunk == 'empty-read':
+                    # the first character alone, then a read that returns nothing, then the rest: only meaningful in the
+                    # middle of a line (at a line end an empty read IS the end of input) and between two characters
+                    if len(text) < 2 or text[0] == '\n':
+                        continue
+                    chunk, empty_after = len(text[0].encode('utf-8')), 0
+                rc, out, err = run_cfg(d, name, cfg, data, chunk=chunk, empty_after=empty_after)
                 st.inc('runs')
                 if chunk:
                     st.inc('runs_chunked_stdin')
@@ -117,7 +124,8 @@ def texts_task(d, texts, names, chunks=(None,), configs=None):
                 if rc != 0 or got != exp or other != b'':
                     short = text if len(text) <= 40 else text[:20] + '…[%d chars]' % len(text)
                     st.violate(Violation('C14', 'unicopy', 'copy:%s:%s%d' % (name, cfg[0], cfg[1]),
-                                         {'kind': 'unicopy', 'program': name, 'config': list(cfg), 'input': short, 'chunk': chunk,
+                                         {'kind': 'unicopy', 'program': name, 'config': list(cfg), 'input': short,
+                                          'chunk': 'empty-read' if empty_after is not None else chunk,
                                           'input_hex': data.hex() if len(data) <= 64 else None},
                                          'status 0, %d bytes: %r' % (len(exp), exp[:80]),
                                          'status %r, %d bytes: %r; other stream %r' % (rc, len(got), first_diff(exp, got), other[:80])))
@@ -194,7 +202,7 @@ def run_c14(tier):
         # the same input handed over 1, 2, 3 bytes per read (characters split between reads)
         dl = [t for t in texts if len(t) <= 2] + bulk[:3]
         for i in range(0, len(dl), 12):
-            tasks.append((d, dl[i:i + 12], ['cat', 'cat3'], (1, 2, 3), [('interp', 0), ('interp', 2), ('compiled', 0)]))
+            tasks.append((d, dl[i:i + 12], ['cat', 'cat3'], (1, 2, 3, 'empty-read'), [('interp', 0), ('interp', 2), ('compiled', 0)]))
         collect(st, pmap(texts_task, tasks))
     cov = {
         'states': st.n.get('texts', 0),
